@@ -730,3 +730,31 @@ Proof.
   exact (a_converge_scan_ok sc_pay sc_pay_eqb sc_pay_eqb_refl false true true n (sc_view sc_new)
            (sc_rep_cur _ R) (hi_clear_zero _ _) (fun _ => conj eq_refl sc_pay_eqb_eq) fuel [] (sc_h h) (O, O) eq_refl).
 Qed.
+
+(* ================================================================ a sweep is 252 calls *)
+
+(* Whatever the state and whatever the environment does: within any 252 consecutive calls of
+   transmit_telegram every address 0..125 is probed.  (HighPrioOnly is not an input of the
+   model: both applications ignore it, DESIGN O4.)  This is what makes "the population has
+   been stable for two sweeps" a statement about TIME in the ground-truth oracle. *)
+Lemma ll_sweep_covers ts s h s' tr : addr_ok ts -> ll_rep s -> ll_run ts s h = Ok (s', tr) ->
+  (sweep_polls <= length h)%nat -> forall a, 0 <= a <= 125 -> In a (probed (map ll_abs tr)).
+Proof.
+  intros Hts R E L a Ha. destruct (ll_sim ts s h s' tr Hts R E) as [_ [T _]]. rewrite T.
+  apply (walk_cover resp_state (a_cur (ll_view s)) (a_dn (ll_view s))).
+  - exact (ll_rep_cur s R).
+  - exact (a_cursor resp_state true false (ll_h h) (ll_view s) (ll_rep_cur s R)).
+  - rewrite a_trace_length. unfold ll_h. rewrite map_length. exact L.
+  - exact Ha.
+Qed.
+
+Lemma sc_sweep_covers ts s h s' tr : addr_ok ts -> sc_rep s -> sc_run ts s h = Ok (s', tr) ->
+  (sweep_polls <= length h)%nat -> forall a, 0 <= a <= 125 -> In a (probed (map sc_abs tr)).
+Proof.
+  intros Hts R E L a Ha. destruct (sc_sim ts s h s' tr Hts R E) as [_ [T _]]. rewrite T.
+  apply (walk_cover sc_pay (a_cur (sc_view s)) (a_dn (sc_view s))).
+  - exact (sc_rep_cur s R).
+  - exact (a_cursor sc_pay false true (sc_h h) (sc_view s) (sc_rep_cur s R)).
+  - rewrite a_trace_length. unfold sc_h. rewrite map_length. exact L.
+  - exact Ha.
+Qed.
